@@ -96,6 +96,11 @@ func escapeVarName(varName string) string {
 		return varName + "Arg"
 	}
 
+	// identifiers can not start with a digit
+	if varName != "" && varName[0] >= '0' && varName[0] <= '9' {
+		return "_" + varName
+	}
+
 	return varName
 }
 
@@ -119,7 +124,8 @@ func isReservedJavaKeyword(input string) bool {
 	switch input {
 	case "static", "abstract", "enum", "class", "if", "else", "switch", "final", "public", "private", "protected", "package", "continue", "new", "for", "assert",
 		"do", "default", "goto", "synchronized", "boolean", "double", "int", "short", "char", "float", "long", "byte", "break", "throw", "throws", "this",
-		"implements", "transient", "return", "catch", "extends", "case", "try", "void", "volatile", "super", "native", "finally", "instanceof", "import", "while":
+		"implements", "transient", "return", "catch", "extends", "case", "try", "void", "volatile", "super", "native", "finally", "instanceof", "import", "while",
+		"interface", "const", "strictfp", "null", "true", "false", "_":
 		return true
 	}
 	return false
